@@ -28,7 +28,7 @@ pub fn info() -> PropInfo {
         id: "C02",
         run,
         replay,
-        rule: "cases = (input, configuration, cut set, pending pattern, buffer policy). The record sequences (event or error, buffer_position, error_position after every call, up to and including the calls after the end) of read_event on the slice, read_event_into on the whole slice, read_event_into over the chunked BufRead and read_event_into_async over the chunked AsyncBufRead with the pending pattern must be identical. All 2^(n-1) cut sets for every enumerated string; single cuts, cut pairs, fixed piece sizes and random cut sets for longer inputs. Non-trivial = at least one cut falls strictly inside a markup construct.",
+        rule: "cases = (input, configuration, cut set, pending pattern, buffer policy). The record sequences (event or error, buffer_position, error_position after every call, up to and including the calls after the end) of read_event on the slice, read_event_into on the whole slice, read_event_into over the chunked BufRead and read_event_into_async over the chunked AsyncBufRead with the pending pattern must be identical. All 2^(n-1) cut sets for every enumerated string; single cuts, cut pairs, fixed piece sizes and random cut sets for longer inputs. Non-trivial = at least one cut falls strictly inside a markup construct. Two further enumerations vary SIZE and OFFSET: fourteen construct kinds (text, long name, quoted value with '>', many attributes, blanks inside tags, comment / CDATA / PI bodies with near-terminators, DOCTYPE with nested brackets, blank runs around text, reference runs, declaration, deep nesting) with an inner length 0..=70 placed after a prefix of 0..=130 bytes, and large inputs whose variable part is 255..70 001 bytes long (block-wise scanners, buffer growth, positions beyond 255 / 65 535, default BufReader capacity).",
         assumptions: &[
             "when the input starts with (a prefix of) a BOM or a UTF-16 signature the first piece is at least 4 bytes (the exception written into the property)",
             "the harness executor polls single-threaded; every Pending is preceded by a wake-up",
